@@ -78,6 +78,34 @@ func randJSON(r *rand.Rand, depth int) interface{} {
 	}
 }
 
+type jsonRec struct {
+	Name  string            `json:"name"`
+	Tags  []string          `json:"tags,omitempty"`
+	Attrs map[string]string `json:"attrs"`
+	Blob  []byte            `json:"blob"`
+	skip  int
+}
+
+// typedJSON returns encodable values that are not made of interface{} / map / slice: pre-encoded JSON (compact or
+// not, with characters the encoder escapes, nil), json.Number, structs with tags, byte slices.
+func typedJSON(r *rand.Rand) interface{} {
+	switch r.Intn(6) {
+	case 0:
+		return json.RawMessage(`{ "a" : [1, 2,   "<x>&" ],` + "\n" + `  "b":{"c" :null} }`)
+	case 1:
+		return json.RawMessage(nil)
+	case 2:
+		q, _ := json.Marshal(randText(r)) // a valid JSON string, so that the whole is an encodable value
+		return json.RawMessage("[ " + string(q) + " ,  true ]")
+	case 3:
+		return json.Number("12.50")
+	case 4:
+		return jsonRec{Name: randText(r), Tags: []string{"<a>", randText(r)}, Attrs: map[string]string{"k&": randText(r)}, Blob: []byte(randText(r)), skip: 1}
+	default:
+		return []interface{}{json.RawMessage(`{"x" :  1}`), &jsonRec{Name: "p"}, map[string]json.RawMessage{"r": json.RawMessage(`[ ]`)}}
+	}
+}
+
 type rdSpy struct {
 	hdr        http.Header
 	code       int
@@ -132,10 +160,15 @@ func rdReplay(raw json.RawMessage, idx int, tr *traceWriter) {
 	switch c.Fmt {
 	case "JSON":
 		v := randJSON(rng, 0)
+		if (c.VSeed/256)%4 == 0 {
+			v = typedJSON(rng) // values of Go types with an encoding of their own: every encodable value goes through the standard encoder
+		}
 		doRender = func(r flamego.Render) { r.JSON(c.Status, v) }
 		check = func(body []byte) {
-			var back interface{}
-			roundtrip = json.Unmarshal(body, &back) == nil && reflect.DeepEqual(back, v)
+			// what the value decodes back to is defined by the standard encoder / decoder pair
+			var back, want interface{}
+			cmp, _ := json.Marshal(v)
+			roundtrip = json.Unmarshal(body, &back) == nil && json.Unmarshal(cmp, &want) == nil && reflect.DeepEqual(back, want)
 			var std bytes.Buffer
 			enc := json.NewEncoder(&std)
 			if c.Indent != "" {
